@@ -319,3 +319,8 @@ func VerifC09_StoreErrors() {
 	m.seek(vI64("offset"), io.SeekStart)
 	m.read(1 + vChoose("readlen", 3))
 }
+
+// VerifC09_CorFileRestart: the file served by `mount-index --cor-file` across a restart that
+// reuses saved state while the copy-on-read file was kept, lost, cut or grown (the body is C10's):
+// every read returns the blob's bytes or an error.
+func VerifC09_CorFileRestart() { VerifC10_Restart() }
